@@ -4,6 +4,7 @@ import TypstyleModel.Proofs.CarriesComment
 import TypstyleModel.Proofs.CarriesLists
 import TypstyleModel.Proofs.CarriesBinary
 import TypstyleModel.Proofs.CarriesListH
+import TypstyleModel.Proofs.CarriesDot
 /-! Equations and math (`math.rs`): the math-mode entry points carry exactly what the tree prescribes.
 `Q` is the fragment for contexts that are not in math mode, `QM` the fragment for math mode; the child
 after a `#` is converted in code mode, hence must satisfy `Q`. -/
@@ -1182,5 +1183,81 @@ theorem convArrayMH_carries (e : Env) (r : Rec) (hr : RecOK r Q) (hrM : RecOKM r
       cases hk : x.kind <;> simp_all [Kind.isExpr]
     simp only [hns, Bool.false_eq_true, ↓reduceIte, hx]
     exact Post.bind (Q := fun _ => True) (fun _ _ _ _ => trivial) (fun d _ => Post.pure rfl)
+
+end Typstyle
+
+namespace Typstyle
+open Twin
+variable {Q QM : ANode → Prop}
+
+/-! ### field access in math (`arrow.r`, `angle.l`) -/
+
+/-- In math mode a field access never takes a chain layout. -/
+theorem tryDotChain_math_none (e : Env) (r : Rec) (ctx : Ctx) (hm : ctx.mode = .math) (n : ANode) (hk : n.kind = .fieldAccess) :
+    Post (tryDotChain e r ctx n) (fun o => o = none) := by
+  unfold tryDotChain
+  split
+  · exact Post.pure rfl
+  · simp only [pure_bind]
+    have hmk : (ctx.mode == LMode.markup) = false := by rw [hm]; rfl
+    have hc1 : (ctx.mode == LMode.code) = false := by rw [hm]; rfl
+    have hc2 : (ctx.mode == LMode.codeCont) = false := by rw [hm]; rfl
+    have hplain : Post (tryDotChainPlain e r ctx (resolveDotChain n.depth n)) (fun o => o = none) := by
+      obtain ⟨fuel, hfuel⟩ : ∃ f, n.depth = f + 1 := ⟨n.depth - 1, by have := depth_pos n; omega⟩
+      rw [hfuel]
+      obtain ⟨xs, hxs⟩ := resolveDotChain_cons (fuel + 1) n
+      unfold tryDotChainPlain
+      simp only
+      rw [hxs]
+      have hgl : (n :: xs).reverse.getLast? = some n := by simp
+      rw [hgl]
+      cases (n :: xs).reverse.head? with
+      | none => exact Post.pure rfl
+      | some id =>
+        simp only
+        have : (n.kind != Kind.funcCall || id.kind != Kind.ident) = true := by simp [hk]
+        simp only [this, ↓reduceIte]
+        exact Post.pure rfl
+    split
+    · refine Post.bind hplain ?_
+      intro o ho
+      subst ho
+      simp only [hmk, hc1, hc2, Bool.false_and, Bool.or_self, Bool.false_eq_true, ↓reduceIte]
+      exact Post.pure rfl
+    · simp only [hmk, hc1, hc2, Bool.false_and, Bool.or_self, Bool.false_eq_true, ↓reduceIte]
+      exact Post.pure rfl
+
+/-- **`convert_field_access` in math mode** (no comment among the children). -/
+theorem convFieldAccessM_carries (e : Env) (r : Rec) (hrM : RecOKM r QM) (ctx : Ctx) (hm : ctx.mode = .math)
+    (t : ANode) (rest : List ANode) (a : Attrs) (hda : a.disabled = false)
+    (hxt : isExpr t = true) (hqt : QM t) (hrest : faRest 0 rest = true)
+    (hlex : ANode.tokensAreLeavesL (t :: rest) = true)
+    (hnc : (t :: rest).any (fun c => isCommentKind c.kind) = false) :
+    Post (convFieldAccess e r ctx (.inner .fieldAccess (t :: rest) a))
+      (fun d => Carries d (specAll (.inner .fieldAccess (t :: rest) a))) := by
+  unfold convFieldAccess
+  refine Post.bind (tryDotChain_math_none e r ctx hm _ rfl) ?_
+  intro o ho
+  subst ho
+  simp only
+  have hv : isVerbatimNode .fieldAccess (t :: rest) a = false := by simp [isVerbatimNode, hda]
+  rw [specAll_inner .fieldAccess (t :: rest) a hv (by decide)]
+  unfold convFieldAccessPlain
+  have hcm : hasCommentChildren (.inner .fieldAccess (t :: rest) a) = false := by
+    simpa [hasCommentChildren, ANode.children] using hnc
+  simp only [hcm, Bool.false_eq_true, ↓reduceIte]
+  simp only [List.any_cons, Bool.or_eq_false_iff] at hnc
+  simp only [ANode.tokensAreLeavesL, Bool.and_eq_true] at hlex
+  obtain ⟨f, hf, hs⟩ := faRest0 rest hrest hlex.2 hnc.2
+  have hfind : firstWhere (.inner .fieldAccess (t :: rest) a) isExpr = some t := by
+    simp [firstWhere, ANode.children, hxt]
+  have hlast : lastWhere (.inner .fieldAccess (t :: rest) a) (fun c => c.kind == .ident) = some f := by
+    show (t :: rest).reverse.find? _ = _
+    rw [List.reverse_cons, List.find?_append, hf]; rfl
+  simp only [hfind, hlast, childOr, M.pure_bind]
+  refine Post.bind (hrM.expr ctx t hm hxt hqt) (fun d hd => Post.pure ?_)
+  rw [specAllL_cons, hs]
+  have := (hd.app (Carries.mkText e.wd .syn ".")).app (Carries.mkText e.wd .lit f.text)
+  simpa [Streams.app_assoc, Env.syn, Env.lit] using this
 
 end Typstyle
